@@ -1,6 +1,6 @@
 (* Extraction of the executable C19 model for the correspondence check (ExtrOcamlBasic directives only). *)
 Require Extraction.
 Require ExtrOcamlBasic.
-From Pika Require Import Base.Conc Gen.GenRuntimeState Model.SuspendResume.
+From Pika Require Import Base.Conc Gen.GenRuntimeState Model.SuspendResume Model.SuspendResumeHP.
 Extraction Language OCaml.
-Extraction "m.ml" sr_tstep sr_g0 sr_locals enabled client_done refused expand rs_ord qof step.
+Extraction "m.ml" sr_tstep sr_g0 sr_locals enabled client_done refused expand rs_ord qof step hp_tstep hq.
